@@ -173,6 +173,12 @@ def run(ctx: common.Ctx):
                             dict(base, exception='auto', variations=['misc', 'addvar']))
     judge(ctx, res, 'config-pairs-exc')
     s2 = dict(ctx.coverage['worker_stats'])
+    res = cv_checks.explore(ctx, ctx.n(260, 4000),
+                            dict(base, per_tx=(1, 4), special=['sec', 'sec', 'start', 'stop', 'junction'], sec_near_start=0.6, coding_only=True,
+                                 kw={'selenocysteine_termination': False},
+                                 variations=['sect', 'addvar']))
+    judge(ctx, res, 'special-codons')
+    s2b = dict(ctx.coverage['worker_stats'])
     n = ctx.n(30, 400)
     jobs = [(ctx.rng('rjob', i).randrange(1 << 30), ctx.tier) for i in range(n)]
     with mp.get_context('fork').Pool(14) as pool:
@@ -186,7 +192,8 @@ def run(ctx: common.Ctx):
                           {'seed': r['seed']})
         for what, d in r['violations'][:2]:
             ctx.add_violation(what, d)
-    ctx.coverage['worker_stats'] = {'config-pairs': s1, 'config-pairs-exc': s2, 'restrictive-switches': s3}
+    ctx.coverage['worker_stats'] = {'config-pairs': s1, 'config-pairs-exc': s2, 'special-codons': s2b,
+                                    'restrictive-switches': s3}
     shutil.rmtree(gen_ref.WORK, ignore_errors=True)
     ctx.assumptions += [
         'PARTIAL: monotonicity is proved for the definition (Props.C05), for the real command it is '
